@@ -627,6 +627,13 @@ func c05ErrorsDelivered(c *core.Ctx) {
 					if errv == nil {
 						continue
 					}
+					// a callback-shaped helper (yield handed in, bool result): returning
+					// true means "carry on", not "stop"
+					if len(r.Results) == 1 {
+						if cst, isC := facts.RetVal(r, 0).(*ssa.Const); isC && cst.Value != nil && cst.Value.ExactString() == "true" {
+							continue
+						}
+					}
 					n++
 					delivered := false
 					for _, ci := range facts.CallsIn(fn) {
